@@ -47,8 +47,8 @@ Print Assumptions C11_roundtrip_cells.
 
 (* ------------------------------------------------------------------ the second generation
    "Writing the re-read list again yields the same bytes", for EVERY valid
-   list.  (Before the fixes cd7192e - the memo is written trimmed - and
-   96161d9 - a split for all affiliates does not by itself need the affiliate
+   list.  (Before the fixes 84ca472 - the memo is written trimmed - and
+   e44bc72 - a split for all affiliates does not by itself need the affiliate
    column - this was refuted on two classes, found by the check: a memo with
    surrounding white space, and a split of the default affiliate in a list
    naming no other affiliate.  The model follows the fixed code; the two
